@@ -123,12 +123,12 @@ def save_performance_midi(
     elif isinstance(performance_data, PerformedPart):
         performed_parts = [performance_data]
     elif isinstance(performance_data, Iterable):
-        if not all(isinstance(pp, PerformedPart) for pp in performance_data):
+        performed_parts = list(performance_data)
+        if not all(isinstance(pp, PerformedPart) for pp in performed_parts):
             raise ValueError(
                 "`performance_data` should be a `Performance`, a `PerformedPart`,"
                 " or a list of  `PerformedPart` instances"
             )
-        performed_parts = performed_parts
 
     else:
         raise ValueError(
